@@ -342,6 +342,17 @@ func (s *Session) relevantFacts(o *Obligation) []string {
 	if o.Cover {
 		return facts
 	}
+	if !strings.Contains(o.Guard+" "+o.Goal, "(height ") {
+		// the recursion measure (views of the height observer) matters only to the obligations that mention it
+		var kept, keptW []string
+		for i, f := range facts {
+			if !strings.Contains(f, "(height ") {
+				kept = append(kept, f)
+				keptW = append(keptW, weak[i])
+			}
+		}
+		facts, weak = kept, keptW
+	}
 	declared := s.declSet
 	rel := map[string]bool{}
 	for _, sym := range symbolsOf(o.Guard + " " + o.Goal) {
